@@ -75,6 +75,141 @@ class SymSet:
         raise Unsupported("| on a symbolic set")
 
 
+class SymKeyDict(dict):
+    """dict whose keys may be symbolic numbers: an association list with symbolic lookup.
+    Insertion keeps keys pairwise distinct (forks only where equality is undetermined)."""
+
+    def __init__(self, pairs=()):
+        super().__init__()
+        self.pairs: list = []
+        for k, v in pairs:
+            self[k] = v
+
+    @staticmethod
+    def _keq(a, b):
+        r = S.sx_eq(a, b)
+        return r is True or (r is not False and bool(r))
+
+    def __setitem__(self, k, v):
+        for i, (ek, _) in enumerate(self.pairs):
+            if self._keq(ek, k):
+                self.pairs[i] = (ek, v)
+                return
+        self.pairs.append((k, v))
+
+    def __sx_getitem__(self, k):
+        for ek, ev in self.pairs:
+            if self._keq(ek, k):
+                return ev
+        raise KeyError(k)
+
+    __getitem__ = __sx_getitem__
+
+    def __sx_contains__(self, k):
+        return V.s_or(*[S.sx_eq(ek, k) for ek, _ in self.pairs]) if self.pairs else False
+
+    def __contains__(self, k):
+        return bool(self.__sx_contains__(k))
+
+    def get(self, k, d=None):
+        try:
+            return self.__sx_getitem__(k)
+        except KeyError:
+            return d
+
+    def __delitem__(self, k):
+        for i, (ek, _) in enumerate(self.pairs):
+            if self._keq(ek, k):
+                del self.pairs[i]
+                return
+        raise KeyError(k)
+
+    def pop(self, k, *d):
+        try:
+            v = self.__sx_getitem__(k)
+        except KeyError:
+            if d:
+                return d[0]
+            raise
+        del self[k]
+        return v
+
+    def keys(self):
+        return [k for k, _ in self.pairs]
+
+    def values(self):
+        return [v for _, v in self.pairs]
+
+    def items(self):
+        return list(self.pairs)
+
+    def __iter__(self):
+        return iter(self.keys())
+
+    def __len__(self):
+        return len(self.pairs)
+
+    def __bool__(self):
+        return bool(self.pairs)
+
+    def update(self, other=(), **kw):
+        for k, v in (other.items() if hasattr(other, "items") else other):
+            self[k] = v
+        for k, v in kw.items():
+            self[k] = v
+
+    def __or__(self, other):
+        r = SymKeyDict(self.pairs)
+        r.update(other)
+        return r
+
+    def __ror__(self, other):
+        r = SymKeyDict(other.items())
+        r.update(self)
+        return r
+
+    def __ior__(self, other):
+        self.update(other)
+        return self
+
+    def copy(self):
+        return SymKeyDict(self.pairs)
+
+    def __eq__(self, other):
+        raise Unsupported("== on a dict with symbolic keys")
+
+    def __repr__(self):
+        return "SymKeyDict(%d)" % len(self.pairs)
+
+    def __sx_concretize__(self, model):
+        return [[V.concretize(k, model), V.concretize(v, model)] for k, v in self.pairs]
+
+
+def _symkey(k):
+    return isinstance(k, (V.SymInt, V.SymReal, V.SymFloat))
+
+
+def mkdict(pairs):
+    """dict display / dict comprehension: [(key, value) | (None, mapping-to-unpack)]"""
+    pairs = list(pairs)
+    flat = []
+    for k, v in pairs:
+        if k is _UNPACK:
+            flat.extend(v.items() if hasattr(v, "items") else [(kk, v[kk]) for kk in v.keys()])
+        else:
+            flat.append((k, v))
+    if any(_symkey(k) for k, _ in flat):
+        return SymKeyDict(flat)
+    return dict(flat)
+
+
+_UNPACK = object()
+
+
+def mkordered(arg=()):
+    return arg if isinstance(arg, SymKeyDict) else None
+
+
 class RT:
     """Namespace injected into every instrumented module as ``_sx_rt_``."""
 
@@ -87,6 +222,8 @@ class RT:
     getitem = staticmethod(S.sx_getitem)
     mod = staticmethod(S.sx_mod)
     mkset = staticmethod(SymSet.make)
+    mkdict = staticmethod(mkdict)
+    UNPACK = _UNPACK
 
 
 class Rewriter(ast.NodeTransformer):
@@ -170,6 +307,20 @@ class Rewriter(ast.NodeTransformer):
         if all(isinstance(e, ast.Constant) for e in node.elts):
             return node
         return self._call(node, "mkset", [ast.List(node.elts, ast.Load())])
+
+    def visit_Dict(self, node):
+        self.generic_visit(node)
+        if all(isinstance(k, ast.Constant) for k in node.keys if k is not None) and all(k is not None for k in node.keys):
+            return node
+        pairs = [
+            ast.Tuple([k if k is not None else self._rt("UNPACK"), v], ast.Load()) for k, v in zip(node.keys, node.values)
+        ]
+        return self._call(node, "mkdict", [ast.List(pairs, ast.Load())])
+
+    def visit_DictComp(self, node):
+        self.generic_visit(node)
+        gen = ast.GeneratorExp(ast.Tuple([node.key, node.value], ast.Load()), node.generators)
+        return self._call(node, "mkdict", [gen])
 
     # annotations are never evaluated (from __future__ import annotations everywhere), but
     # keep them untouched anyway
